@@ -1,12 +1,14 @@
 /-
 C01 — property theorems (DESIGN.md §2 C01).  Helper lemmas: Lemmas.lean, Inv.lean,
-Inv2.lean, Inv3.lean.
+Inv2.lean, Inv3.lean, Mirror.lean, Cap.lean.
 
 The model (`Model.lean`) is one `Node` = one `LightningChannel`; `Node.run n ops`
 applies ANY list of API operations (in any order, with any arguments, protocol
 following or not).
 -/
 import LndModel.C01.Inv3
+import LndModel.C01.Mirror
+import LndModel.C01.Cap
 set_option linter.unusedSimpArgs false
 
 namespace LndModel.C01
@@ -81,6 +83,59 @@ theorem fee_paid_in_full {n : Node} {c : Chain} {r : ViewResult} {a b d e : Nat}
     (hb : buildCommit n.cfg c (n.chain c).tip r a b d e = .ok cm) :
     cm.our + cm.their + 1000 * cm.fee = r.our + r.their :=
   (buildCommit_ok hw (sanityOfView_fee_paid hs) hb).bal
+
+/-- **capacity_assertion_unreachable**.  The bound "outputs + fee ≤ capacity" is not merely
+    enforced by the explicit assertion in `createUnsignedCommitmentTx`: in every reachable state
+    that assertion can never fire (neither when signing nor when receiving a commitment); the
+    bound is a consequence of conservation. -/
+theorem capacity_assertion_unreachable (n0 : Node) (h0 : InitOK n0) (ops : List Op) :
+    ((n0.run ops).sign).1 ≠ .overCapacity ∧ ∀ sv, ((n0.run ops).receiveCommit sv).1 ≠ .overCapacity := by
+  have hI := inv_run (inv_init h0) ops
+  generalize n0.run ops = n at hI
+  constructor
+  · unfold Node.sign
+    split
+    · intro h; cases h
+    · simp only
+      split
+      · rename_i hs
+        have covL : ∀ e ∈ n.logL.entries, e.onChain .rem = true → e.logIndex < n.logL.logIndex :=
+          fun e he _ => hI.logL.idxBound e he
+        have := fetch_not_overCapacity (hL := n.logL.htlcCounter) (hR := n.chainL.tail.theirHtlc)
+          hI.logL hI.logR covL hI.covR (hI.j1 .rem) hs
+        split
+        · rename_i e hfe
+          simp only
+          intro h; subst h; exact this hfe
+        · intro h; cases h
+      · rename_i e hne
+        have := sanity_class n n.chainL.tail.theirMsg n.logL.logIndex .rem .none [] []
+        intro h
+        simp only at h
+        rw [h] at this
+        cases this
+  · intro sv
+    unfold Node.receiveCommit
+    simp only
+    split
+    · rename_i hs
+      have covR : ∀ e ∈ n.logR.entries, e.onChain .loc = true → e.logIndex < n.logR.logIndex :=
+        fun e he _ => hI.logR.idxBound e he
+      have := fetch_not_overCapacity (hL := n.chainR.tail.ourHtlc) (hR := n.logR.htlcCounter)
+        hI.logL hI.logR hI.covL covR (hI.j1 .loc) hs
+      split
+      · rename_i e hfe
+        simp only
+        intro h; subst h; exact this hfe
+      · split
+        · intro h; cases h
+        · intro h; cases h
+    · rename_i e hne
+      have := sanity_class n n.logR.logIndex n.chainR.tail.ourMsg .loc .none [] []
+      intro h
+      simp only at h
+      rw [h] at this
+      cases this
 
 /-- amount of the opener's fee that is added back before comparing balances. -/
 def feeBack (openerIsUs : Bool) (cm : Commit) : Nat := if openerIsUs then 1000 * cm.fee else 0
@@ -171,6 +226,97 @@ theorem balance_moves_receiveCommit {n n' : Node} {sv : SigView} (hI : Inv n)
     exact absurd h.1 (by intro e; exact hne e)
 
 
+/-! ### agreement of the two peers -/
+
+/-- **honest_sig_verifies_partial** (must, partial).  A commitment signature produced by
+    `SignNextCommitment` in state `a` is never answered with an Invalid*SigError by
+    `ReceiveNewCommitment` in a state `b` that is in `LogAgreement` with `a`.
+
+    Full statement (not proved here): in `System`, for every schedule of local actions and
+    in-order deliveries from a well-formed initial pair, `LogAgreement` holds at every delivery
+    of a `commitSig` (FIFO queues + one-unacked-commitment window).  What is missing is that
+    cross-node inductive invariant; the driver checks the `LogAgreement` hypothesis on every
+    signature delivery of every real trace instead. -/
+theorem honest_sig_verifies_partial {a b a' : Node} {sv : SigView} (hA : LogAgreement a b)
+    (hs : a.sign = (.ok, a', some sv)) : (b.receiveCommit sv).1 ≠ .invalidSig := by
+  unfold Node.sign at hs
+  split at hs
+  · simp at hs
+  · simp only at hs
+    split at hs
+    · split at hs
+      · simp at hs
+      · rename_i cma a1 hfa
+        simp only [Prod.mk.injEq, Option.some.injEq, true_and] at hs
+        obtain ⟨_, rfl⟩ := hs
+        unfold Node.receiveCommit
+        simp only
+        split
+        · split
+          · rename_i hfe; exact fetch_err_sig hfe
+          · rename_i cmb b1 hfb
+            rw [if_pos (constructions_agree hA hfa hfb)]
+            intro h; cases h
+        · exact sanity_ne_sig _ _ _ _ _ _ _
+    · simp at hs
+
+/-- **mirror_signed_partial** (partial form of `mirror_when_idle`).  Under `LogAgreement` the
+    commitment the signer appends to its remote chain and the one the receiver appends to its
+    local chain are mirror images: same height, balances swapped to the millisatoshi, same fee,
+    same fee rate, identical transaction.
+
+    Full statement (not proved here): `mirror_when_idle` — in `System`, whenever both queues are
+    empty and no update is pending on either side, `A.localCommit = mirror B.remoteCommit` and
+    vice versa.  It follows from this theorem once `LogAgreement` is shown to hold at every
+    signature delivery (the missing cross-node invariant); the monitor checks the mirror property
+    itself on every idle state and every signed commitment of the real traces. -/
+theorem mirror_signed_partial {a b a' b' : Node} {sv : SigView} (hA : LogAgreement a b)
+    (hs : a.sign = (.ok, a', some sv)) (hr : b.receiveCommit sv = (.ok, b')) :
+    let ca := a'.chainR.tip
+    let cb := b'.chainL.tip
+    cb.height = ca.height ∧ cb.our = ca.their ∧ cb.their = ca.our ∧ cb.fee = ca.fee ∧
+    cb.feePerKw = ca.feePerKw ∧ cb.outs = ca.outs := by
+  unfold Node.sign at hs
+  split at hs
+  · simp at hs
+  · simp only at hs
+    split at hs
+    · split at hs
+      · simp at hs
+      · rename_i cma a1 hfa
+        simp only [Prod.mk.injEq, Option.some.injEq, true_and] at hs
+        obtain ⟨rfl, rfl⟩ := hs
+        unfold Node.receiveCommit at hr
+        simp only at hr
+        split at hr
+        · split at hr
+          · rename_i hfe
+            simp only [Prod.mk.injEq] at hr
+            exact absurd hr.1 (fetch_err hfe)
+          · rename_i cmb b1 hfb
+            split at hr
+            · simp only [Prod.mk.injEq, true_and] at hr
+              subst hr
+              have t1 : ({ tail := a1.chainR.tail, pend := a1.chainR.pend ++ [cma] } : CChain).tip = cma :=
+                tip_push a1.chainR cma
+              have t2 : ({ tail := b1.chainL.tail, pend := b1.chainL.pend ++ [cmb] } : CChain).tip = cmb :=
+                tip_push b1.chainL cmb
+              simp only [t1, t2]
+              exact constructions_mirror hA hfa hfb
+            · simp at hr
+        · rename_i hne
+          simp only [Prod.mk.injEq] at hr
+          exact absurd hr.1 (by intro e; exact hne e)
+    · simp at hs
+
+/-- the executable check used by the driver is the hypothesis of the theorem. -/
+theorem agreeCheck_sound {a b : Node} (h : agreeCheck a b = true) : LogAgreement a b := by
+  unfold agreeCheck at h
+  simp only [Bool.and_eq_true, decide_eq_true_eq] at h
+  obtain ⟨⟨⟨⟨⟨⟨⟨⟨⟨⟨h1, h2⟩, h3⟩, h4⟩, h5⟩, h6⟩, h7⟩, h8⟩, h9⟩, h10⟩, h11⟩ := h
+  exact ⟨h1, ⟨h2, h3, h4, h5, h6⟩, h7, h8, h9, h10, h11⟩
+
+
 /-! ### non-vacuity: concrete instances of every hypothesis used above -/
 
 /-- a concrete well-formed initial state (1 000 000 sat channel, we are the opener). -/
@@ -196,6 +342,22 @@ example : ((demoNode.run [.addHTLC 5000000 144 7]).sign).1 = .ok := by decide
 /-- … and so are those of `balance_moves_receiveCommit` (the peer's view of the same update). -/
 example : ((demoNode.run [.receiveHTLC 0 5000000 144 7]).receiveCommit
     ⟨1, 253, [⟨499774, .toLocal, 0, 0⟩, ⟨495000, .toRemote, 0, 0⟩, ⟨5000, .received, 144, 7⟩]⟩).1 = .ok := by
+  decide
+
+
+/-- the peer of `demoNode`. -/
+def demoPeer : Node :=
+  { cfg := demoCfg.mirror,
+    chainL := { tail := { demoCommit with our := 500000000, their := 499817000 } },
+    chainR := { tail := { demoCommit with our := 500000000, their := 499817000 } } }
+
+/-- `LogAgreement` is satisfiable in a non-trivial reachable pair of states (an HTLC in flight),
+    and there the signature is indeed accepted. -/
+example : agreeCheck (demoNode.run [.addHTLC 5000000 144 7]) (demoPeer.run [.receiveHTLC 0 5000000 144 7]) = true := by
+  decide
+example : ∃ sv a', (demoNode.run [.addHTLC 5000000 144 7]).sign = (.ok, a', some sv) ∧
+    ((demoPeer.run [.receiveHTLC 0 5000000 144 7]).receiveCommit sv).1 = .ok := by
+  refine ⟨_, _, rfl, ?_⟩
   decide
 
 end LndModel.C01
